@@ -271,6 +271,11 @@ def blockdiag(blocks):
     return L
 
 
+def fixed_basis():
+    return [RefShell(2, tuple(hvec("c09-fx0", 3, -1.5, 1.5)), (0.8, 2.3), [[0.6, 0.3], [0.5, -0.7]], "cartesian"),
+            RefShell(1, tuple(hvec("c09-fx1", 3, -1.5, 1.5)), (1.1,), [[1.0]], "spherical")]
+
+
 def flip_rewrites(st):
     """switch one Cartesian shell to spherical; L = I (+) I_M (x) C_shell (+) I"""
     if st.T is not None:
@@ -311,6 +316,7 @@ def evaluate(cfg):
         cs = al.molecule_centers(n, tag="c09-mol")
         shells = [al.ladder_shell(cfg["start"] + i, cs[i], "cartesian", lmax=4 if n <= 2 else 3) for i in range(n)]
         env = default_env(shells, "c09")
+        env["fixed_basis"] = fixed_basis()
         dq = density_quantities()
         if quick or n >= 3:
             for k in ("ehrenfest_hessian", "general_ked"):
@@ -330,7 +336,8 @@ def evaluate(cfg):
     l = cfg["l"]
     cs = al.molecule_centers(2, tag="c09-conv")
     names = ["overlap", "kinetic", "point_charge", "moment", "momentum", "angular_momentum", "evaluate_basis",
-             "evaluate_deriv_basis(2, 0, 1)", "overlap_asymmetric"]
+             "evaluate_deriv_basis(2, 0, 1)", "overlap_asymmetric", "overlap_asymmetric_vs_fixed",
+             "overlap_asymmetric_fixed_first"]
     full = (l == 2)  # complete enumeration of a large convention space: ERI only outside the quick tier
     iq = integral_quantities(names=names + (["eri_chemist"] if (l <= 2 and not (quick and full)) else []))
     dq = density_quantities(names=["density", "density_gradient", "electrostatic_potential", "stress_tensor"])
@@ -352,6 +359,7 @@ def evaluate(cfg):
             base = al.shell(l, cs[0], 2, 2, ctype, pat=1)
             partner = al.shell(1, cs[1], 1, 1, ptype, pat=1)
             env = default_env([base, partner], "c09conv")
+            env["fixed_basis"] = fixed_basis()
             ex = Explorer(o, iq, dq, tol=1e-10, eri_cap=40, dens_every=max(1, len(perms) // 6))
             seed = System([base, partner], None, env)
             for p in perms:
@@ -391,6 +399,7 @@ def evaluate(cfg):
     exs = []
     for partner in partners:
         env = default_env([base, partner], "c09conv")
+        env["fixed_basis"] = fixed_basis()
         exs.append((Explorer(o, iq, dq, tol=1e-10, eri_cap=40, dens_every=max(1, len(perms) * len(signs) // 12)),
                     System([base, partner], None, env), partner, env))
     for p in perms:
